@@ -32,7 +32,7 @@ EXCEPTIONS = {
         "reached only for statements of the instantiation property (_add_constraint dispatches on it); "
         "_group_node_constraints passes those through unmerged, so they are never choice statements",
     # ------------------------------------------------------------------- R-DET
-    "R-DET|set|RdflibSgraph.yield_classes_with_instances|set()":
+    "R-DET|set|RdflibSgraph.yield_classes_with_instances|*":      # any set built in this method (the reason is about the method)
         "called only from produce_shape_map_according_to_input under all_classes_mode=True, which only "
         "_yielder_for_url_endpoint passes - together with an EndpointSGraph; for an RdflibSgraph the method is "
         "unreachable from the API (argument correlation the context-insensitive call graph cannot see)",
@@ -65,9 +65,13 @@ EXCEPTIONS = {
 
 def apply(obs):
     n = 0
+    wild = {k[:-1]: v for k, v in EXCEPTIONS.items() if k.endswith("|*")}
     for o in obs:
-        if not o.ok and o.key in EXCEPTIONS:
+        why = EXCEPTIONS.get(o.key)
+        if why is None:
+            why = next((v for k, v in wild.items() if o.key.startswith(k)), None)
+        if not o.ok and why is not None:
             o.ok = True
-            o.msg = "frozen exception: " + EXCEPTIONS[o.key] + " [was: " + o.msg + "]"
+            o.msg = "frozen exception: " + why + " [was: " + o.msg + "]"
             n += 1
     return n
